@@ -35,7 +35,19 @@ func (v *Violation) String() string { return v.Class + ": " + v.Detail }
 
 // Violf builds a violation.
 func Violf(class, format string, args ...any) *Violation {
-	return &Violation{Class: class, Detail: fmt.Sprintf(format, args...)}
+	return &Violation{Class: class, Detail: Stable(fmt.Sprintf(format, args...))}
+}
+
+var addrRE = regexp.MustCompile(`0x[0-9a-fA-F]{6,}`)
+
+// Stable replaces what differs from process to process in a formatted value
+// (addresses printed for channels, functions, pointers and in stacks), so
+// that event logs and violation details replay byte for byte.
+func Stable(s string) string {
+	if !strings.Contains(s, "0x") {
+		return s
+	}
+	return addrRE.ReplaceAllString(s, "0x?")
 }
 
 // HarnessError is panicked by checks when the simulator itself is at fault
@@ -90,7 +102,7 @@ func (r *Run) Feature(name string, num, den int) bool {
 // Logf appends a line to the run's deterministic event log.
 func (r *Run) Logf(format string, args ...any) {
 	if len(r.log) < 20000 {
-		r.log = append(r.log, fmt.Sprintf(format, args...))
+		r.log = append(r.log, Stable(fmt.Sprintf(format, args...)))
 	}
 }
 
